@@ -250,7 +250,8 @@ def stripZeros (s : List Char) : List Char := (s.reverse.dropWhile (· == '0')).
 
 def pad2 (n : Nat) : String := if n < 10 then "0" ++ toString n else toString n
 
-def fmtG (x : XF) : String :=
+/-- `%.6g` (CONVFMT / OFMT) -/
+def fmtG6 (x : XF) : String :=
   match x with
   | .nan n => if n then "-nan" else "nan"
   | .inf n => if n then "-inf" else "inf"
@@ -283,6 +284,21 @@ def fmtG (x : XF) : String :=
       else
         let frac := stripZeros (List.replicate ((-X).toNat - 1) '0' ++ ds)
         sg ++ "0." ++ String.ofList frac
+
+/-- `val_flt_to_str`: a float whose value is an exact integer that fits hawk_int_t is converted as if by %d
+(so -0.0 is "0"); CONVFMT / OFMT apply to the other numbers only -/
+def fmtG (x : XF) : String :=
+  match x with
+  | .fin n m e =>
+    if m = 0 then "0"
+    else if e ≥ 0 then fmtG6 x        -- |x| >= 2^63: only -2^63 itself fits
+      |> fun s => if n && m == 9223372036854775808 && e == 0 then "-9223372036854775808" else s
+    else
+      let sh := (-e).toNat
+      if sh < 64 && m % (2 ^ sh) == 0 then
+        (if n then "-" else "") ++ toString (m >>> sh)
+      else fmtG6 x
+  | _ => fmtG6 x
 
 /-! ## hawk_uchars_to_num / hawk_bchars_to_num -/
 
